@@ -132,6 +132,20 @@ theorem pump_prompt (buf : List Byte) (cs : List (List Byte)) (hbuf : find marke
     find marker (pump .fixed (cs.map .data) buf).2.1 = none := by
   rw [pump_eq_split buf cs hbuf]; exact split_residue _
 
+/-- **Robustness of the repair**: any restart distance of at least `marker.length - 1` bytes (e.g.
+the whole marker length) gives the same behaviour; only a smaller one — in particular 0, the pinned
+snapshot — can miss a delimiter. -/
+theorem recv_any_sufficient_back (back : Nat) (hb : marker.length - 1 ≤ back) (buf : List Byte) (reads : List Read) :
+    recv { back := back, eofCheck := true } buf reads = recv .fixed buf reads := by
+  unfold recv
+  rw [recvLoop_eq_spec_back back hb reads 0 buf (by intro j hj; omega),
+      recvLoop_eq_spec reads 0 buf (by intro j hj; omega)]
+
+/-- a restart distance of 4 (one short) already misses a delimiter cut 5|1 -/
+theorem recv_back_4_cex :
+    recv { back := 4, eofCheck := true } [] (datas [[60, 97, 47, 62, 93, 93, 62, 93, 93], [62]])
+      = .pending [60, 97, 47, 62, 93, 93, 62, 93, 93, 62] := by decide
+
 /-! ### Non-vacuity and the pinned snapshot -/
 
 /-- `<a/>` is well framed, `]]>` is not (EOM framing is inherently ambiguous for such bodies). -/
